@@ -78,7 +78,7 @@ def judge (impl : List Row) (exp : List Expect) : Bool × String :=
   else
     match (impl.zip exp).find? (fun (a, e) =>
         !(a.r == e.r && a.code == e.code && a.sev == e.sev && isInfix e.subject (unhex a.msg))) with
-    | some (a, e) => (false, s!"published {a.code} at {a.r} where {e.code} for '{String.fromUTF8! ⟨(e.subject).toArray⟩}' at {e.r} is expected")
+    | some (a, e) => (false, s!"published {a.code} at {a.r} (message hex {a.msg}) where {e.code} for subject hex {hex e.subject} at {e.r} is expected")
     | none => (true, "")
 
 open HL.Spec.Undeclared in
